@@ -1547,6 +1547,9 @@ M("RFM-free-fn-completion-before-flush", ["C13", "C04"], [("@patch", "selftest/m
 M("C09-u16-little-endian", ["C09", "C01"], [(SER, "    fn serialize_u16(self, v: u16) -> Result<Self::Ok, Self::Error> {\n        self.push_bytes(&v.to_be_bytes())", "    fn serialize_u16(self, v: u16) -> Result<Self::Ok, Self::Error> {\n        self.push_bytes(&v.to_le_bytes())")], ["C09/prim/serialize_u16", "C01/prim/serialize_u16"])
 M("C08-read-u16-little-endian", ["C08", "C09"], [(DESER, "Ok(u16::from_be_bytes([self.pop()?, self.pop()?]))", "Ok(u16::from_le_bytes([self.pop()?, self.pop()?]))")], ["C08/prim/read_u16", "C09/prim/read_u16"])
 M("C08-u32-bytes-reversed", ["C08"], [(DESER, "visitor.visit_u32(u32::from_be_bytes(self.try_take_n(4)?.try_into().unwrap()))", "visitor.visit_u32(u32::from_be_bytes(self.try_take_n(4)?.try_into().unwrap()).swap_bytes())")], ["C08/prim/deserialize_u32"])
+M("C09-varint-encoder-step-8", ["C09", "C01"], [(VARINT, "        value >>= 7;\n        if value != 0 {\n            byte |= 0x80;", "        value >>= 8;\n        if value != 0 {\n            byte |= 0x80;")], ["C09/varint/encoder/step", "C01/varint/encoder/step"])
+M("C09-varint-encoder-mask-ff", ["C09"], [(VARINT, "let mut byte = (value & 0x7F) as u8;", "let mut byte = (value & 0xFF) as u8;")], ["C09/varint/encoder/group"])
+M("C09-varint-encoder-continuation-always", ["C09"], [(VARINT, "        if value != 0 {\n            byte |= 0x80;\n        }\n        out.push(byte)?;", "        byte |= 0x80;\n        out.push(byte)?;")], ["C09/varint/encoder/continuation"])
 M("RFM-predicates-pending-ignores-generation", ["C18"], [("@patch", "selftest/mutants_rf/predicates-pending-ignores-generation.diff", "")], ["C18/status/table"])
 
 # fourth round: organisational refactorings (guard clauses, sub-borrows, loop forms, private structs, generic helpers)
